@@ -464,3 +464,30 @@ def _array_as_slice(m, args, ci):
     s, a, b = seq_of(args[0])
     return Slice(s, a, b)
 
+
+# ---- Extend / FromIterator ----------------------------------------------------------------------------
+@I.rx(r'^<(std::vec::)?Vec as (std::iter::)?Extend>::extend$|^<(std::string::)?String as (std::iter::)?Extend>::extend$', prio=1)
+def _vec_extend_any(m, args, ci):
+    """extend from any IntoIterator: a Vec / array (by value), a slice or reference (cloned elements), an iterator."""
+    tgt = vec_target(args[0])
+    src = args[1]
+    if isinstance(src, IterBase) or (isinstance(src, Ref) and isinstance(src.get(), IterBase)):
+        it = as_iter(m, src)
+        while True:
+            x = it.next(m)
+            if x is None:
+                break
+            tgt.items.append(deref_val(x) if isinstance(x, Ref) and tgt.kind == 'str' else x)
+        return unit()
+    if isinstance(src, Seq):
+        tgt.items.extend(src.items)
+        return unit()
+    if isinstance(src, (Ref, Slice)):
+        s, a, b = seq_of(src)
+        tgt.items.extend(clone_value(m, x) for x in s.items[a:b])
+        return unit()
+    if isinstance(src, Adt) and src.variant in ('Some', 'None'):
+        if src.variant == 'Some':
+            tgt.items.append(src.fields[0])
+        return unit()
+    raise Unsupported('extend from %r' % (src,))
